@@ -32,3 +32,49 @@ def summarize(I):
         f, l = r['site']
         out.append(('%s:%s' % (front.rel(f), l), r['caller'], r['iterations'], conflicts(r), pre_loop_writes(r)))
     return out
+
+
+def uses_thread_identity(cfg='avx2'):
+    """number of call sites of omp_get_thread_num / omp_get_num_threads in the OpenMP build of the tree"""
+    import re
+    return len(re.findall(r'call[^\n]*@omp_get_(?:thread_num|num_threads)\(', open(front.ir_path(cfg, True, True)).read()))
+
+
+def cross_summarize(I0, I1):
+    """Regions whose code asks for the thread number: the footprint of iteration i as thread 0 (interpreter I0) is compared with
+    the footprint of iteration j != i as thread 1 of a team of two (I1).  Cells addressed through the thread number differ
+    between the two and are private; a cell met in both is shared whatever the thread.  Same result as summarize() for code
+    that never looks at its thread number.  None when the two executions do not line up."""
+    if len(I0.par_regions) != len(I1.par_regions):
+        return None
+    out = []
+    for r0, r1 in zip(I0.par_regions, I1.par_regions):
+        if r0['site'] != r1['site'] or r0['iterations'] != r1['iterations']:
+            return None
+        c0, c1 = {}, {}
+        for cells, r in ((c0, r0), (c1, r1)):
+            for kind, reg, off, size, it in r['log']:
+                d = cells.setdefault((reg.name, off), [set(), set()])
+                d[0 if kind == 'w' else 1].add(it)
+        confl, pre = [], []
+        for cell, (w0, rd0) in c0.items():
+            if cell not in c1:
+                continue
+            w1, rd1 = c1[cell]
+            # code outside the iterations (it None) is executed by both threads
+            if None in w0 and (None in w1 or None in rd1):
+                pre.append(cell)
+            if None in w1 and None in rd0 and cell not in pre:
+                pre.append(cell)
+            a0, b0 = w0 - {None}, rd0 - {None}
+            a1, b1 = w1 - {None}, rd1 - {None}
+            ww = [(i, j) for i in a0 for j in a1 if i != j]
+            if ww:
+                confl.append((cell, 'write/write', sorted(set(ww[0]))))
+                continue
+            wr = [(i, j) for i in a0 for j in b1 if i != j] + [(i, j) for i in a1 for j in b0 if i != j]
+            if wr:
+                confl.append((cell, 'write/read', list(wr[0])))
+        f, l = r0['site']
+        out.append(('%s:%s' % (front.rel(f), l), r0['caller'], r0['iterations'], confl, pre))
+    return out
